@@ -6,19 +6,18 @@ import os
 VERIF = os.path.dirname(os.path.dirname(os.path.abspath(__file__)))
 
 # property -> (technique, level text, level note, design ref)
-CLAIMED = {
-    "C12": (
-        "Lean 4 theorems (induction over arrival histories, bit-level window invariant) + "
-        "differential correspondence of the Lean model with oscore.ReplayWindow/unprotect",
-        "Proof: 7 kernel-checked theorems about the Lean model of ReplayWindow and of the replay-related "
-        "control flow of unprotect, for every arrival sequence, window size >= 1 and start state; the model "
-        "is tied to the code by running both on generated window-op and arrival sequences (real unprotect "
-        "with a transparent AEAD) and diffing outcomes and final window state.",
-        "Trusted: Lean kernel, axioms propext/Classical.choice/Quot.sound, the hand-written model and its "
-        "correspondence harness (incl. cbor2/cryptography/filelock shims). AEAD failure on forgeries is a "
-        "model input (`authentic`), i.e. cryptographic strength is assumed.",
-        "DESIGN.md §6 C12"),
-}
+def load_claims():
+    """tools/claims/Cxx.json: {technique, text, note, design_ref}"""
+    d = os.path.join(VERIF, "tools", "claims")
+    out = {}
+    for fn in sorted(os.listdir(d)):
+        if fn.endswith(".json"):
+            c = json.load(open(os.path.join(d, fn)))
+            out[fn[:-5]] = (c["technique"], c["text"], c["note"], c["design_ref"])
+    return out
+
+
+CLAIMED = load_claims()
 
 NOT_YET = "not claimed yet: model/theorems/correspondence for this property are still being built (see DESIGN.md §9 build order)"
 
